@@ -1,6 +1,10 @@
 """Parallel case runner: one subprocess per chunk, subprocess timeout as watchdog."""
 import json
+import os
+import shutil
+import signal
 import subprocess
+import tempfile
 import threading
 import time
 from concurrent.futures import ThreadPoolExecutor
@@ -11,14 +15,29 @@ from . import env
 def _run_chunk(prop, items, timeout):
     cmd = [env.PY, '-m', 'nmon.worker', prop]
     t0 = time.time()
+    # every scratch file of the chunk (also of grandchildren) lives under one directory that is removed here, so a
+    # watchdog kill cannot leave anything behind in /tmp
+    scratch = tempfile.mkdtemp(prefix='nmon-chunk-')
+    cenv = env.child_env()
+    cenv.update(TMPDIR=scratch, NMON_TMP=scratch)
+    p = subprocess.Popen(cmd, stdin=subprocess.PIPE, stdout=subprocess.PIPE, stderr=subprocess.PIPE, text=True,
+                         env=cenv, cwd=env.VERIF, start_new_session=True)
     try:
-        p = subprocess.run(cmd, input=json.dumps(items), capture_output=True, text=True,
-                           timeout=timeout, env=env.child_env(), cwd=env.VERIF)
-        stdout, stderr, rc, timed_out = p.stdout, p.stderr, p.returncode, False
-    except subprocess.TimeoutExpired as e:
-        stdout = e.stdout.decode() if isinstance(e.stdout, bytes) else (e.stdout or '')
-        stderr = e.stderr.decode() if isinstance(e.stderr, bytes) else (e.stderr or '')
+        stdout, stderr = p.communicate(json.dumps(items), timeout=timeout)
+        rc, timed_out = p.returncode, False
+    except subprocess.TimeoutExpired:
+        try:
+            os.killpg(p.pid, signal.SIGKILL)       # the worker and everything it started (pools, strace children)
+        except ProcessLookupError:
+            pass
+        stdout, stderr = p.communicate()
         rc, timed_out = None, True
+    finally:
+        try:
+            os.killpg(p.pid, signal.SIGKILL)       # stragglers of a finished worker (e.g. orphaned pool processes)
+        except (ProcessLookupError, PermissionError):
+            pass
+        shutil.rmtree(scratch, ignore_errors=True)
     got = {}
     fatal = None
     for line in stdout.splitlines():
